@@ -45,7 +45,11 @@ IsLastHop(p) == p.ch = NumHops(p) - 1
 IsFirstHopAfterXover(p) == p.ci > 0 /\ p.ch > 0 /\ p.ci - 1 = InfIdx(p, p.ch - 1)
 CurHop(p) == p.hops[p.ch + 1]
 CurInf(p) == p.infos[p.ci + 1]
-WellFormedPtr(p) == /\ p.ch >= 0 /\ p.ch < NumHops(p) /\ NumHops(p) = Len(p.hops)
+\* p.hops may be a window of the hop fields (a function on a sub-range of 1..NumHops): routers
+\* look at the previous, current and next hop field only
+WellFormedPtr(p) == /\ p.ch >= 0 /\ p.ch < NumHops(p) /\ (p.ch + 1) \in DOMAIN p.hops
+                    /\ (p.ch + 2 <= NumHops(p) => (p.ch + 2) \in DOMAIN p.hops)
+                    /\ (p.ch > 0 => p.ch \in DOMAIN p.hops)
                     /\ p.ci >= 0 /\ p.ci < NumInf(p) /\ NumInf(p) = Len(p.infos)
 IncPath(p) == [p EXCEPT !.ch = p.ch + 1, !.ci = InfIdx(p, p.ch + 1)]
 
@@ -171,7 +175,7 @@ DiffAllowed(pre, post, d) ==
     \/ off = mo                                                   \* CurrINF | CurrHF
     \/ off \in InfoSidBytes(mo, pre.ci) \cup InfoSidBytes(mo, post.ci)
     \/ /\ \E h \in {pre.ch, post.ch} :
-              /\ h < Len(pre.hops)
+              /\ (h + 1) \in DOMAIN pre.hops
               /\ off = HopFlagByte(mo, NumInf(pre), h)
               /\ (pre.hops[h + 1].ia \/ pre.hops[h + 1].ea)
        /\ FlagsOnlyCleared(d[2], d[3])
